@@ -84,13 +84,22 @@ CHECKS.append(
          note="Trusted: rustc MIR (destination types, resolved callees). A Result handed to another function or stored counts "
               "as delivered.",
          technique="static: path-sensitive must-use dataflow over MIR + provenance/blame rules + parity dataflow"))
+CHECKS.append(
+    dict(id="C13", level="other", engine="E1+E3",
+         text="Dispatch tables of the SPARQL engine read from MIR switch tables (variant names): every GraphPattern/Query/"
+              "Expression variant matched explicitly, supported ones reach exactly their evaluator, all others reach "
+              "NotImplemented with nothing evaluated, FROM NAMED rejected up front; FILTER's keep-iff-truthy chain; binding "
+              "consistency checks guard every insertion; positional DISTINCT key; GRAPH ?g pre-binding; panic audit of the "
+              "evaluator core. Decides these structural clauses, not equality with the algebra's multisets.",
+         note="Trusted: spargebra's algebra; rustc MIR. Function library and numeric tower are listed, not armed.",
+         technique="static: path/arm template extraction over MIR switch tables + dominator rules + panic audit"))
 NOT_APPLICABLE = [
     dict(property_id="C17", reason="relativise/resolve inverse is an equation between runtime-computed strings "
          "(byte-offset arithmetic); no structural clause that is a genuine necessary condition without freezing the "
          "code; static analysis in reach cannot decide it"),
 ]
 # properties not yet wired in this commit are listed as not applicable *for now* by gen (see below)
-PENDING = ["C01", "C02", "C05", "C06", "C07", "C11", "C12", "C13", "C14",
+PENDING = ["C01", "C02", "C05", "C06", "C07", "C11", "C12", "C14",
            "C18"]
 for p in PENDING:
     if p not in [c["id"] for c in CHECKS]:
